@@ -494,7 +494,7 @@ pub fn worker(ctx: &mut Ctx) {
 
     // C. clauses from rule vocabulary (+ prefix closure of some)
     {
-        let n = ctx.budget(120_000, 3_000_000);
+        let n = ctx.budget(80_000, 3_000_000);
         let mut rng = ctx.rng_global("sweep-C");
         for i in 0..n {
             unit += 1;
@@ -524,7 +524,7 @@ pub fn worker(ctx: &mut Ctx) {
 
     // D. hostile unicode in every front-end
     {
-        let n = ctx.budget(60_000, 1_500_000);
+        let n = ctx.budget(40_000, 1_500_000);
         let mut rng = ctx.rng_global("sweep-D");
         for i in 0..n {
             unit += 1;
@@ -547,7 +547,7 @@ pub fn worker(ctx: &mut Ctx) {
 
     // E. mutations of fixtures and rule sentences
     {
-        let n = ctx.budget(60_000, 1_500_000);
+        let n = ctx.budget(40_000, 1_500_000);
         let mut rng = ctx.rng_global("sweep-E");
         for i in 0..n {
             unit += 1;
@@ -611,7 +611,7 @@ pub fn worker(ctx: &mut Ctx) {
 
     // G. very long words / sentences / repeated units
     {
-        let n = ctx.budget(1_500, 30_000);
+        let n = ctx.budget(600, 30_000);
         let mut rng = ctx.rng_global("sweep-G");
         for i in 0..n {
             unit += 1;
@@ -654,7 +654,7 @@ pub fn worker(ctx: &mut Ctx) {
 
     // I. grammar-generated files (the C04 generator), intact, truncated and mutated
     {
-        let n = ctx.budget(30_000, 600_000);
+        let n = ctx.budget(20_000, 600_000);
         let mut rng = ctx.rng_global("sweep-I");
         for i in 0..n {
             unit += 1;
@@ -686,7 +686,7 @@ pub fn worker(ctx: &mut Ctx) {
 
     // J. configurations x dialects on rule sentences
     {
-        let n = ctx.budget(20_000, 400_000);
+        let n = ctx.budget(15_000, 400_000);
         let mut rng = ctx.rng_global("sweep-J");
         let mut cur: Option<(Cfg, Dialect)> = None;
         for i in 0..n {
